@@ -13,7 +13,7 @@ META = {
                    'sequence, equal to it on success paths (R03.1-R03.4, R03.6). Identifier provenance (R03.5): user id, '
                    'channel ids and share id used in outgoing PDUs derive from the server replies, and the share id is '
                    '(re)stored on every accepted demand-active. Reader layouts of the server PDUs parsed during the sequence '
-                   'are compared with the MS-RDPBCGR layouts in spec/server_pdus.json (R03.7: field order, kinds, optional '
+                   'are compared with the MS-RDPBCGR layouts in spec/server_pdus.json (R03.8: a capability set the client cannot parse never aborts the demand-active; R03.7: field order, kinds, optional '
                    'trailing fields). "Connecting succeeds against every conforming server" as a value-level statement is not decided.',
     'assumptions': ['HashMap iteration order of the two static channels is unspecified (both joins are sent; their relative order is not decided)'],
     'trusted_base': ['rustc nightly MIR construction', 'mirfacts exporter', 'rules/c03.py, dsl.py, sym.py, facts.py', 'spec/server_pdus.json'],
